@@ -20,33 +20,38 @@ Definition s_glued (s : D.st) (f a b : Z) : D.st :=
          (D.upd (D.upd (D.upd (D.upd (D.copp s) a (3 * f + 2)) (3 * f + 2) a) b (3 * f + 1)) (3 * f + 1) b)
          (D.upd vc1 p (vc1 n)) (D.nv s) (D.hole s) (D.stack s) (D.splits s) (D.events s) (D.invalid s) (D.nfaces s) (D.inits s).
 
-Lemma step_S_unfold : forall rm s f sid a b rest, DP.W NC maxv f s -> 3 * f + 3 <= NC -> D.stack s = b :: a :: rest ->
-  D.find_split sid (D.splits s) = None -> a <> b -> D.copp s a = -1 -> D.copp s b = -1 ->
+(** the corner glued to the left edge of an S face: the entry below the top of the stack, or - when a topology split event
+    registered one for this symbol - the corner from topology_split_active_corners (then the stack keeps that entry) *)
+Definition stack1_of (s : D.st) (sid : Z) (rest0 : list Z) : list Z :=
+  match D.find_split sid (D.splits s) with Some c => c :: rest0 | None => rest0 end.
+
+Lemma step_S_unfold_g : forall rm s f sid a b rest0 rest, DP.W NC maxv f s -> 3 * f + 3 <= NC -> D.stack s = b :: rest0 ->
+  stack1_of s sid rest0 = a :: rest -> 0 <= a < 3 * f -> a <> b -> D.copp s a = -1 -> D.copp s b = -1 ->
   D.step_S NC rm s f sid =
     D.bind (D.s_loop NC (D.loop_fuel NC) (s_glued s f a b) (D.next_c b) (D.next_c b) (D.c2v s (D.prev_c a)))
       (fun s2 => let n := D.c2v s (D.next_c b) in
                  D.bind (D.make_isolated s2 n)
                    (fun s3 => D.Ok (D.with_stack (if rm then D.with_invalid s3 (n :: D.invalid s3) else s3) (3 * f :: rest)))).
 Proof.
-  intros rm s f sid a b rest HW HN Est Efs Nab Fa Fb.
+  intros rm s f sid a b rest0 rest HW HN Est Es1 Ha Nab Fa Fb.
   pose proof (DP.w_nf _ _ _ _ HW) as Hnf. pose proof (DP.w_nv _ _ _ _ HW) as Hnv.
-  pose proof (DP.w_stack _ _ _ _ HW) as Hst. rewrite Est in Hst. inversion Hst as [|? ? Hb Hst2]; subst. inversion Hst2 as [|? ? Ha Hrest]; subst.
+  pose proof (DP.w_stack _ _ _ _ HW) as Hst. rewrite Est in Hst. inversion Hst as [|? ? Hb Hrest0]; subst.
   pose proof (DP.next_c_rng a f Ha) as Hna. pose proof (DP.prev_c_rng a f Ha) as Hpa.
   pose proof (DP.next_c_rng b f Hb) as Hnb. pose proof (DP.prev_c_rng b f Hb) as Hpb.
   pose proof (DP.w_vr _ _ _ _ HW _ Hpa) as Vp. pose proof (DP.w_vr _ _ _ _ HW _ Hna) as Vq.
   pose proof (DP.w_vr _ _ _ _ HW _ Hpb) as Vr. pose proof (DP.w_vr _ _ _ _ HW _ Hnb) as Vn.
-  unfold D.step_S. rewrite Est, Efs. replace (a =? b) with false by lia.
+  unfold D.step_S. rewrite Est. unfold stack1_of in Es1. rewrite Es1. replace (a =? b) with false by lia.
   unfold D.all_free, D.opposite. fwd. rewrite Fa. cbn [Z.eqb Pos.eqb D.bind]. fwd. rewrite Fb. cbn [Z.eqb Pos.eqb D.bind negb].
   unfold D.set_opps, D.set_opp, D.vertex, D.map_cv, D.set_lmc, D.lmc.
   repeat first [ progress fwd | rewrite DP.upd_other by lia ].
   reflexivity.
 Qed.
-Lemma W_glued : forall s f a b rest, DP.W NC maxv f s -> 3 * f + 3 <= NC -> D.stack s = b :: a :: rest ->
+Lemma W_glued_g : forall s f a b rest0, DP.W NC maxv f s -> 3 * f + 3 <= NC -> D.stack s = b :: rest0 -> 0 <= a < 3 * f ->
   a <> b -> D.copp s a = -1 -> D.copp s b = -1 -> DP.W NC maxv (f + 1) (s_glued s f a b).
 Proof.
-  intros s f a b rest HW HN Est Nab Fa Fb.
+  intros s f a b rest0 HW HN Est Ha Nab Fa Fb.
   pose proof (DP.w_nf _ _ _ _ HW) as Hnf. pose proof (DP.w_nv _ _ _ _ HW) as Hnv. pose proof (DP.w_free _ _ _ _ HW) as HF.
-  pose proof (DP.w_stack _ _ _ _ HW) as Hst. rewrite Est in Hst. inversion Hst as [|? ? Hb Hst2]; subst. inversion Hst2 as [|? ? Ha Hrest]; subst.
+  pose proof (DP.w_stack _ _ _ _ HW) as Hst. rewrite Est in Hst. inversion Hst as [|? ? Hb Hrest0]; subst.
   pose proof (DP.next_c_rng a f Ha) as Hna. pose proof (DP.prev_c_rng a f Ha) as Hpa.
   pose proof (DP.next_c_rng b f Hb) as Hnb. pose proof (DP.prev_c_rng b f Hb) as Hpb.
   pose proof (DP.w_vr _ _ _ _ HW _ Hpa) as Vp. pose proof (DP.w_vr _ _ _ _ HW _ Hna) as Vq.
@@ -68,7 +73,7 @@ Proof.
     + unfold D.upd. destruct (D.c2v s (D.next_c b) =? D.c2v s (D.prev_c b)); [right; lia|].
       destruct (DP.w_lr _ _ _ _ HW _ Vn) as [Q|Q]; [left; auto|right; lia].
   - exact Hnv.
-  - rewrite Est. constructor; [lia|]. constructor; [lia|]. eapply DP.Forall_mono3; [|exact Hrest]. lia.
+  - rewrite Est. constructor; [lia|]. eapply DP.Forall_mono3; [|exact Hrest0]. lia.
   - eapply DP.Forall_mono3s; [|apply (DP.w_splits _ _ _ _ HW)]. lia.
   - apply (DP.w_invalid _ _ _ _ HW).
 Qed.
@@ -102,8 +107,8 @@ Proof.
     apply (IH (S i) s1 (g cn)); auto. lia.
 Qed.
 
-Lemma dec_step_S : forall rm s f sid a b rest, DP.W NC maxv f s -> DF.FI f s -> 3 * f + 3 <= NC -> D.stack s = b :: a :: rest ->
-  D.find_split sid (D.splits s) = None -> a <> b -> D.copp s a = -1 -> D.copp s b = -1 ->
+Lemma dec_step_S_g : forall rm s f sid a b rest0 rest, DP.W NC maxv f s -> DF.FI f s -> 3 * f + 3 <= NC -> D.stack s = b :: rest0 ->
+  stack1_of s sid rest0 = a :: rest -> 0 <= a < 3 * f -> a <> b -> D.copp s a = -1 -> D.copp s b = -1 ->
   let p := D.c2v s (D.prev_c a) in let r := D.c2v s (D.prev_c b) in let n := D.c2v s (D.next_c b) in
   p <> n -> r <> n ->
   exists s', D.step_S NC rm s f sid = D.Ok s' /\
@@ -113,15 +118,15 @@ Lemma dec_step_S : forall rm s f sid a b rest, DP.W NC maxv f s -> DF.FI f s -> 
     D.events s' = D.events s /\ D.splits s' = D.splits s /\
     D.invalid s' = (if rm then n :: D.invalid s else D.invalid s) /\ D.nfaces s' = D.nfaces s.
 Proof.
-  intros rm s f sid a b rest HW HF HN Est Efs Nab Fa Fb p r n Npn Nrn.
+  intros rm s f sid a b rest0 rest HW HF HN Est Es1 Ha Nab Fa Fb p r n Npn Nrn.
   pose proof (DP.w_nf _ _ _ _ HW) as Hnf. pose proof (DP.w_nv _ _ _ _ HW) as Hnv.
-  pose proof (DP.w_stack _ _ _ _ HW) as Hst. rewrite Est in Hst. inversion Hst as [|? ? Hb Hst2]; subst. inversion Hst2 as [|? ? Ha Hrest]; subst.
+  pose proof (DP.w_stack _ _ _ _ HW) as Hst. rewrite Est in Hst. inversion Hst as [|? ? Hb Hrest0]; subst.
   pose proof (DP.next_c_rng a f Ha) as Hna. pose proof (DP.prev_c_rng a f Ha) as Hpa.
   pose proof (DP.next_c_rng b f Hb) as Hnb. pose proof (DP.prev_c_rng b f Hb) as Hpb.
   pose proof (DP.w_vr _ _ _ _ HW _ Hpa) as Vp. pose proof (DP.w_vr _ _ _ _ HW _ Hnb) as Vn. fold p in Vp. fold n in Vn.
-  rewrite (step_S_unfold rm s f sid a b rest) by auto.
+  rewrite (step_S_unfold_g rm s f sid a b rest0 rest) by auto.
   set (s1 := s_glued s f a b). fold p. fold n.
-  pose proof (W_glued s f a b rest HW HN Est Nab Fa Fb) as HW1. fold s1 in HW1.
+  pose proof (W_glued_g s f a b rest0 HW HN Est Ha Nab Fa Fb) as HW1. fold s1 in HW1.
   assert (Ec1 : D.copp s1 = D.upd (D.upd (D.upd (D.upd (D.copp s) a (3 * f + 2)) (3 * f + 2) a) b (3 * f + 1)) (3 * f + 1) b) by reflexivity.
   assert (Ev1 : D.c2v s1 = D.upd (D.upd (D.upd (D.c2v s) (3 * f) p) (3 * f + 1) (D.c2v s (D.next_c a))) (3 * f + 2) r) by reflexivity.
   destruct (DF.sc_orbit NC maxv s s1 f a b HW HF Ha Hb Nab Fa Fb Ec1) as (kb & K1 & K2 & K3 & K4 & K5).
@@ -158,6 +163,49 @@ Proof.
 Qed.
 
 (** one whole iteration of the symbol loop for S (no pending split event, no split corner registered for this symbol) *)
+Lemma dec_step_S_full_g : forall rm s sid ns a b rest0 rest, DP.W NC maxv (D.nfaces s) s -> DF.FI (D.nfaces s) s -> 3 * D.nfaces s + 3 <= NC ->
+  D.stack s = b :: rest0 -> stack1_of s sid rest0 = a :: rest -> 0 <= a < 3 * D.nfaces s -> a <> b -> D.copp s a = -1 -> D.copp s b = -1 ->
+  let f := D.nfaces s in
+  let p := D.c2v s (D.prev_c a) in let r := D.c2v s (D.prev_c b) in let n := D.c2v s (D.next_c b) in
+  p <> n -> r <> n ->
+  exists s', D.step NC maxv rm ns s sid 1 = D.Ok s' /\
+    D.copp s' = D.copp (s_glued s f a b) /\
+    (forall c, 0 <= c < 3 * f + 3 -> D.c2v s' c = if D.c2v (s_glued s f a b) c =? n then p else D.c2v (s_glued s f a b) c) /\
+    D.nv s' = D.nv s /\ D.stack s' = 3 * f :: rest /\
+    D.events s' = D.events s /\ D.splits s' = D.splits s /\
+    D.invalid s' = (if rm then n :: D.invalid s else D.invalid s) /\ D.nfaces s' = f + 1.
+Proof.
+  intros rm s sid ns a b rest0 rest HW HF HN Est Es1 Ha Nab Fa Fb f p r n Npn Nrn.
+  pose proof (DP.W_with_nfaces NC maxv _ _ (f + 1) HW) as HW0.
+  assert (HF0 : DF.FI f (D.with_nfaces s (f + 1))) by (apply (DF.FI_same _ s); try reflexivity; exact HF).
+  destruct (dec_step_S_g rm (D.with_nfaces s (f + 1)) f sid a b rest0 rest HW0 HF0 HN Est Es1 Ha Nab Fa Fb Npn Nrn)
+    as (s' & E & A1 & A2 & A3 & A4 & A5 & A6 & A7 & A8).
+  unfold D.step. change (1 =? D.TOPOLOGY_C) with false. change (1 =? D.TOPOLOGY_R) with false. change (1 =? D.TOPOLOGY_L) with false.
+  change (1 =? D.TOPOLOGY_S) with true. cbn [orb]. fold f. rewrite E. exists s'. split; [reflexivity|].
+  split; [exact A1|]. split; [exact A2|]. repeat split; auto.
+Qed.
+
+(** the case without a registered split corner (the statements used for the classes without split events) *)
+Lemma stack1_none s sid a rest : D.find_split sid (D.splits s) = None -> stack1_of s sid (a :: rest) = a :: rest.
+Proof. intros E. unfold stack1_of. rewrite E. reflexivity. Qed.
+
+Lemma dec_step_S : forall rm s f sid a b rest, DP.W NC maxv f s -> DF.FI f s -> 3 * f + 3 <= NC -> D.stack s = b :: a :: rest ->
+  D.find_split sid (D.splits s) = None -> a <> b -> D.copp s a = -1 -> D.copp s b = -1 ->
+  let p := D.c2v s (D.prev_c a) in let r := D.c2v s (D.prev_c b) in let n := D.c2v s (D.next_c b) in
+  p <> n -> r <> n ->
+  exists s', D.step_S NC rm s f sid = D.Ok s' /\
+    D.copp s' = D.copp (s_glued s f a b) /\
+    (forall c, 0 <= c < 3 * f + 3 -> D.c2v s' c = if D.c2v (s_glued s f a b) c =? n then p else D.c2v (s_glued s f a b) c) /\
+    D.nv s' = D.nv s /\ D.stack s' = 3 * f :: rest /\
+    D.events s' = D.events s /\ D.splits s' = D.splits s /\
+    D.invalid s' = (if rm then n :: D.invalid s else D.invalid s) /\ D.nfaces s' = D.nfaces s.
+Proof.
+  intros rm s f sid a b rest HW HF HN Est Efs Nab Fa Fb.
+  assert (Ha : 0 <= a < 3 * f).
+  { pose proof (DP.w_stack _ _ _ _ HW) as Hst. rewrite Est in Hst. inversion Hst as [|? ? _ Hst2]. inversion Hst2; auto. }
+  apply (dec_step_S_g rm s f sid a b (a :: rest) rest); auto. apply stack1_none; auto.
+Qed.
+
 Lemma dec_step_S_full : forall rm s sid ns a b rest, DP.W NC maxv (D.nfaces s) s -> DF.FI (D.nfaces s) s -> 3 * D.nfaces s + 3 <= NC ->
   D.stack s = b :: a :: rest -> D.find_split sid (D.splits s) = None -> a <> b -> D.copp s a = -1 -> D.copp s b = -1 ->
   let f := D.nfaces s in
@@ -170,14 +218,10 @@ Lemma dec_step_S_full : forall rm s sid ns a b rest, DP.W NC maxv (D.nfaces s) s
     D.events s' = D.events s /\ D.splits s' = D.splits s /\
     D.invalid s' = (if rm then n :: D.invalid s else D.invalid s) /\ D.nfaces s' = f + 1.
 Proof.
-  intros rm s sid ns a b rest HW HF HN Est Efs Nab Fa Fb f p r n Npn Nrn.
-  pose proof (DP.W_with_nfaces NC maxv _ _ (f + 1) HW) as HW0.
-  assert (HF0 : DF.FI f (D.with_nfaces s (f + 1))) by (apply (DF.FI_same _ s); try reflexivity; exact HF).
-  destruct (dec_step_S rm (D.with_nfaces s (f + 1)) f sid a b rest HW0 HF0 HN Est Efs Nab Fa Fb Npn Nrn)
-    as (s' & E & A1 & A2 & A3 & A4 & A5 & A6 & A7 & A8).
-  unfold D.step. change (1 =? D.TOPOLOGY_C) with false. change (1 =? D.TOPOLOGY_R) with false. change (1 =? D.TOPOLOGY_L) with false.
-  change (1 =? D.TOPOLOGY_S) with true. cbn [orb]. fold f. rewrite E. exists s'. split; [reflexivity|].
-  split; [exact A1|]. split; [exact A2|]. repeat split; auto.
+  intros rm s sid ns a b rest HW HF HN Est Efs Nab Fa Fb.
+  assert (Ha : 0 <= a < 3 * D.nfaces s).
+  { pose proof (DP.w_stack _ _ _ _ HW) as Hst. rewrite Est in Hst. inversion Hst as [|? ? _ Hst2]. inversion Hst2; auto. }
+  apply (dec_step_S_full_g rm s sid ns a b (a :: rest) rest); auto. apply stack1_none; auto.
 Qed.
 
 End DecS.
@@ -288,6 +332,68 @@ Proof.
       * exists j, r. split; [lia|]. split; [auto|]. split; [|auto].
         rewrite !DP.upd_other by (unfold dco; lia). reflexivity.
 Qed.
+
+Lemma SIM_S_g k d d' ja ra : (k < length Q)%nat -> (1 <= k)%nat -> (ja < k)%nat -> (ra < 3)%nat -> SIM k d -> DP.W NC maxv (Z.of_nat k) d ->
+  let a := dco ja ra in let b := dco (k - 1) 0 in
+  D.copp d' = D.copp (s_glued d (Z.of_nat k) a b) ->
+  (forall c, 0 <= c < 3 * Z.of_nat k + 3 ->
+     D.c2v d' c = if D.c2v (s_glued d (Z.of_nat k) a b) c =? D.c2v d (D.next_c b) then D.c2v d (D.prev_c a) else D.c2v (s_glued d (Z.of_nat k) a b) c) ->
+  D.nfaces d' = Z.of_nat (S k) ->
+  opp_at opp (eco k 1) = Some (eco (k - 1) 0) -> opp_at opp (eco k 2) = Some (eco ja ra) ->
+  ncr k (eco k 0) ->
+  SIM (S k) d'.
+Proof.
+  intros Hk H1 Hja Hra [S1 S2 S3] HW a b Eo Ev En Er El N0.
+  set (rp := ((ra + 2) mod 3)%nat) in *. set (rq := ((ra + 1) mod 3)%nat) in *.
+  assert (Hrp : (rp < 3)%nat) by (apply Nat.mod_upper_bound; lia).
+  assert (Hrq : (rq < 3)%nat) by (apply Nat.mod_upper_bound; lia).
+  pose proof (EbSimDec_proofs.eco_prev Q ja ra Hra) as Eprev. fold rp in Eprev.
+  pose proof (EbSimDec_proofs.eco_next Q ja ra Hra) as Enext. fold rq in Enext.
+  destruct (opp_facts _ _ Er) as (_ & _ & _ & _ & _ & _ & Vr1 & Vr2).
+  destruct (opp_facts _ _ El) as (_ & _ & _ & _ & _ & _ & Vl1 & Vl2).
+  assert (E1 : eco k 1 = next_c (eco k 0)) by reflexivity. assert (E2 : eco k 2 = prev_c (eco k 0)) by reflexivity.
+  rewrite E1 in Vr1, Vr2. rewrite E2 in Vl1, Vl2. rewrite next_next in Vr1. rewrite prev_next in Vr2. rewrite next_prev in Vl1. rewrite prev_prev in Vl2.
+  assert (Nf : ja <> (k - 1)%nat).
+  { intro X.
+    assert (Y : (eco (k - 1) 0 / 3)%nat <> (eco ja ra / 3)%nat).
+    { apply (nbr_next_distinct c2v opp nf Hlen OK (next_c (eco k 0))); [exact Er|rewrite next_next; exact El]. }
+    apply Y. rewrite !eco_face, X. reflexivity. }
+  assert (Nab : ((k - 1)%nat, 0%nat) <> (ja, ra)) by (intro X; inversion X; lia).
+  assert (Nabz : a <> b). { unfold a, b, dco. lia. }
+  assert (Ena : D.next_c a = dco ja rq) by (unfold a; rewrite dco_next by lia; reflexivity).
+  assert (Epa : D.prev_c a = dco ja rp) by (unfold a; rewrite dco_prev by lia; reflexivity).
+  assert (Enb : D.next_c b = dco (k - 1) 1) by (unfold b; rewrite dco_next by lia; reflexivity).
+  assert (Epb : D.prev_c b = dco (k - 1) 2) by (unfold b; rewrite dco_prev by lia; reflexivity).
+  constructor; auto.
+  - apply (opp_step c2v opp nf Hlen OK Q Qrng Qnd k d d' (fun r => match r with 1%nat => Some ((k - 1)%nat, 0%nat) | 2%nat => Some (ja, ra) | _ => None end)); auto.
+    + intros rn jo r0 Hrn Eg. destruct rn as [|[|[|rn]]]; try discriminate; inversion Eg; subst jo r0.
+      * split; [lia|]. split; [lia|]. split; auto. rewrite Eo. unfold s_glued. cbn [D.copp]. unfold a, b, dco in *. split; upd_eval.
+      * split; [lia|]. split; [lia|]. split; auto. rewrite Eo. unfold s_glued. cbn [D.copp]. unfold a, b, dco in *. split; upd_eval.
+    + intros r Hr Eg. destruct r as [|[|[|r]]]; try discriminate; try lia. split; auto.
+      rewrite Eo. unfold s_glued. cbn [D.copp]. unfold a, b, dco in *. upd_eval. apply (DP.w_free _ _ _ _ HW). lia.
+    + intros j r Hj Hr Ng. rewrite Eo. unfold s_glued. cbn [D.copp]. unfold a, b, dco in *. upd_eval.
+      * exfalso. apply (Ng 1%nat); [lia|]. f_equal. f_equal; lia.
+      * exfalso. apply (Ng 2%nat); [lia|]. f_equal. f_equal; lia.
+  - apply (vtx_step_relabel k d d' (D.c2v d (D.next_c b)) (D.c2v d (D.prev_c a)) (k - 1)%nat 1%nat ja rp); auto; try lia.
+    + rewrite Enb. reflexivity.
+    + rewrite Epa. reflexivity.
+    + rewrite Eprev. change (eco (k - 1) 1) with (next_c (eco (k - 1) 0)). congruence.
+    + intros j r Hj Hr. rewrite Ev by (unfold dco; lia). unfold s_glued. cbn [D.c2v]. rewrite Epa, Ena, Epb.
+      destruct (Nat.eq_dec j k) as [->|Nj].
+      * destruct r as [|[|[|r]]]; try lia.
+        -- exists ja, rp. split; [lia|]. split; [lia|]. split.
+           { replace (dco k 0) with (3 * Z.of_nat k) by (unfold dco; lia). rewrite !DP.upd_other by lia. rewrite DP.upd_same. reflexivity. }
+           rewrite Eprev. change (eco k 0) with (nth k Q 0%nat) in *. congruence.
+        -- exists ja, rq. split; [lia|]. split; [lia|]. split.
+           { replace (dco k 1) with (3 * Z.of_nat k + 1) by (unfold dco; lia). rewrite !DP.upd_other by lia. rewrite DP.upd_same. reflexivity. }
+           rewrite Enext. change (eco k 1) with (next_c (eco k 0)). congruence.
+        -- exists (k - 1)%nat, 2%nat. split; [lia|]. split; [lia|]. split.
+           { replace (dco k 2) with (3 * Z.of_nat k + 2) by (unfold dco; lia). rewrite DP.upd_same. reflexivity. }
+           change (eco k 2) with (prev_c (eco k 0)). change (eco (k - 1) 2) with (prev_c (eco (k - 1) 0)). congruence.
+      * exists j, r. split; [lia|]. split; [auto|]. split; [|auto].
+        rewrite !DP.upd_other by (unfold dco; lia). reflexivity.
+Qed.
+
 
 (** ** p <> n: the two boundaries merged by S carry DIFFERENT decoder vertices at the tip.  [Sbreak]: what the encoder saw - the
     tip vertex was visited or lies on a mesh boundary: some OTHER corner at it is in a face processed before (not created)
@@ -410,5 +516,85 @@ Proof.
     + cbn [oiter] in Ei. destruct (oiter (swing_left opp) i (Some (next_c rc))) as [z|] eqn:Ez; [|discriminate].
       apply (sl_sr c2v opp nf Hlen OK) in Ei. unfold swing_right in Ei. rewrite B3 in Ei. discriminate.
 Qed.
+
+Lemma S_sep_g k d ja ra : (k < length Q)%nat -> (1 <= k)%nat -> (ja < k)%nat -> (ra < 3)%nat -> SIM k d -> DF.FI (Z.of_nat k) d -> one_fan c2v opp ->
+  opp_at opp (eco k 1) = Some (eco (k - 1) 0) -> opp_at opp (eco k 2) = Some (eco ja ra) -> Sbreak k ->
+  D.c2v d (dco ja ((ra + 2) mod 3)) <> D.c2v d (dco (k - 1) 1).
+Proof.
+  intros Hk H1 Hja Hra HS HF FAN Er El (x & Hx & Nx & Vx & Nxc & Brk) Eq.
+  set (rp := ((ra + 2) mod 3)%nat) in *.
+  assert (Hrp : (rp < 3)%nat) by (apply Nat.mod_upper_bound; lia).
+  assert (Erp : ((rp + 1) mod 3 = ra)%nat) by (unfold rp; destruct ra as [|[|[|ra]]]; try lia; reflexivity).
+  set (c := eco k 0) in *.
+  assert (E1 : eco k 1 = next_c c) by reflexivity. assert (E2 : eco k 2 = prev_c c) by reflexivity. rewrite E1 in Er. rewrite E2 in El.
+  destruct (opp_facts _ _ Er) as (Er' & _). destruct (opp_facts _ _ El) as (El' & _).
+  (* Previous(left corner) is a dead end of SwingLeft *)
+  assert (Dead : DP.slf d (dco ja rp) = -1).
+  { rewrite (slf_dco c2v opp nf Hlen OK Q Qrng) by lia. rewrite Erp.
+    pose proof (s_opp c2v opp Q _ _ HS ja ra Hja Hra) as X. unfold s_opp_at in X. rewrite El' in X. destruct X as [_ X].
+    rewrite X. reflexivity. intros j' Hj' F. rewrite prev_face in F. unfold c in F. rewrite eco_face in F. apply Q_face_inj in F; lia. }
+  (* hence it is LeftMostCorner of its vertex, and Next(right corner) reaches it *)
+  destruct (DF.f_reach _ _ HF (dco ja rp) ltac:(unfold dco; lia)) as (Np & (m1 & R1)).
+  assert (Tp : D.vc d (D.c2v d (dco ja rp)) = dco ja rp).
+  { destruct m1; [symmetry; exact R1|]. rewrite DF.iter_succ_r, Dead, DF.iter_dead in R1. congruence. }
+  destruct (DF.f_reach _ _ HF (dco (k - 1) 1) ltac:(unfold dco; lia)) as (_ & (m & R)). rewrite <- Eq, Tp in R.
+  destruct (slf_enc k d ltac:(lia) HS m (k - 1)%nat 1%nat ltac:(lia) ltac:(lia)) as (j' & r' & Hj' & Hr' & Ed & Ech).
+  { rewrite R. unfold dco. lia. }
+  rewrite R in Ed. assert (X : j' = ja /\ r' = rp) by (unfold dco in Ed; lia). destruct X as [Xj Xr]. subst j' r'.
+  change (eco (k - 1) 1) with (next_c (eco (k - 1) 0)) in Ech. unfold rp in Ech. rewrite (EbSimDec_proofs.eco_prev Q ja ra Hra) in Ech. fold rp in Ech.
+  set (rc := eco (k - 1) 0) in *. set (lc := eco ja ra) in *.
+  clearbody rp.
+  (* the corners of the walk, with c, are closed under SwingLeft and SwingRight *)
+  set (InC := fun y => y = c \/ exists i, (i <= m)%nat /\ oiter (swing_left opp) i (Some (next_c rc)) = Some y).
+  assert (Csl : forall y y', InC y -> swing_left opp y = Some y' -> InC y').
+  { intros y y' [->|(i & Hi & Ei)] Sy.
+    - right. exists 0%nat. split; [lia|]. unfold swing_left in Sy. rewrite Er in Sy. cbn [oiter]. congruence.
+    - destruct (Nat.eq_dec i m) as [->|Ni].
+      + left. rewrite Ech in Ei. inversion Ei; subst y. unfold swing_left in Sy. rewrite next_prev, El', next_prev in Sy. congruence.
+      + right. exists (S i). split; [lia|]. cbn [oiter]. rewrite Ei. auto. }
+  assert (Csr : forall y y', InC y -> swing_right opp y = Some y' -> InC y').
+  { intros y y' [->|(i & Hi & Ei)] Sy.
+    - right. exists m. split; [lia|]. unfold swing_right in Sy. rewrite El in Sy. rewrite Ech. congruence.
+    - destruct i as [|i].
+      + left. cbn [oiter] in Ei. inversion Ei; subst y. unfold swing_right in Sy. rewrite prev_next, Er', prev_next in Sy. congruence.
+      + right. exists i. split; [lia|]. cbn [oiter] in Ei. destruct (oiter (swing_left opp) i (Some (next_c rc))) as [z|] eqn:Ez; [|discriminate].
+        apply (sl_sr c2v opp nf Hlen OK) in Ei. rewrite Ei in Sy. congruence. }
+  assert (Isl : forall t y y', InC y -> oiter (swing_left opp) t (Some y) = Some y' -> InC y').
+  { induction t as [|t IHt]; intros y y' Iy E; cbn [oiter] in E; [inversion E; subst; auto|].
+    destruct (oiter (swing_left opp) t (Some y)) as [z|] eqn:Ez; [|discriminate]. eapply Csl; [eapply IHt; eauto|eauto]. }
+  assert (Isr : forall t y y', InC y -> oiter (swing_right opp) t (Some y) = Some y' -> InC y').
+  { induction t as [|t IHt]; intros y y' Iy E; cbn [oiter] in E; [inversion E; subst; auto|].
+    destruct (oiter (swing_right opp) t (Some y)) as [z|] eqn:Ez; [|discriminate]. eapply Csr; [eapply IHt; eauto|eauto]. }
+  assert (Ic : InC c) by (left; auto).
+  destruct (Qrng k Hk) as [Hc Dc]. fold (eco k 0) in Hc. fold c in Hc. rewrite <- (eco_face k 0) in Dc. fold c in Dc.
+  assert (Ix : InC x).
+  { assert (Hc' : (c < length c2v)%nat) by (rewrite Hlen; exact Hc).
+    assert (Hx' : (x < length c2v)%nat) by (rewrite Hlen; exact Hx).
+    destruct (FAN c x Hc' Hx' Dc Nx (eq_sym Vx)) as [[t R0]|[t R0]].
+    - eapply Isr; eauto.
+    - apply sr_rev' in R0. eapply Isl; eauto. }
+  destruct Ix as [X|(i & Hi & Ei)]; [congruence|].
+  (* x is on the walk: it is created and has both neighbours around the vertex *)
+  destruct (slf_enc k d ltac:(lia) HS i (k - 1)%nat 1%nat ltac:(lia) ltac:(lia)) as (j2 & r2 & Hj2 & Hr2 & _ & Ech2).
+  { intro X. assert (Y : Nat.iter m (DP.slf d) (dco (k - 1) 1) = -1).
+    { replace m with ((m - i) + i)%nat by lia. rewrite DF.iter_add, X, DF.iter_dead. reflexivity. }
+    rewrite R in Y. unfold dco in Y. lia. }
+  change (eco (k - 1) 1) with (next_c rc) in Ech2. rewrite Ei in Ech2. inversion Ech2 as [Ex].
+  destruct Brk as [B1|[B2|B3]].
+  - apply (B1 j2 Hj2). rewrite Ex, eco_face. reflexivity.
+  - destruct (Nat.eq_dec i m) as [->|Ni].
+    + rewrite Ech in Ei. inversion Ei as [H0]. rewrite <- H0 in B2. rewrite next_prev, El' in B2. discriminate.
+    + assert (Y : exists y, oiter (swing_left opp) (S i) (Some (next_c rc)) = Some y).
+      { destruct (slf_enc k d ltac:(lia) HS (S i) (k - 1)%nat 1%nat ltac:(lia) ltac:(lia)) as (j3 & r3 & _ & _ & _ & E3); eauto.
+        intro X. assert (Y : Nat.iter m (DP.slf d) (dco (k - 1) 1) = -1).
+        { replace m with ((m - S i) + S i)%nat by lia. rewrite DF.iter_add, X, DF.iter_dead. reflexivity. }
+        rewrite R in Y. unfold dco in Y. lia. }
+      destruct Y as (y & Ey). cbn [oiter] in Ey. rewrite Ei in Ey. unfold swing_left in Ey. rewrite B2 in Ey. discriminate.
+  - destruct i as [|i].
+    + cbn [oiter] in Ei. inversion Ei as [H0]. rewrite <- H0 in B3. rewrite prev_next, Er' in B3. discriminate.
+    + cbn [oiter] in Ei. destruct (oiter (swing_left opp) i (Some (next_c rc))) as [z|] eqn:Ez; [|discriminate].
+      apply (sl_sr c2v opp nf Hlen OK) in Ei. unfold swing_right in Ei. rewrite B3 in Ei. discriminate.
+Qed.
+
 
 End SimS.
